@@ -394,8 +394,24 @@ def angular_integration(chk):
         eng_.assume(z3.ForAll([_q], Rr(_q) >= T.from_float(1e-8)))          # no radial node at the origin (that branch: bounded layer)
         eng_.assume(z3.ForAll([_q], z3.Implies(z3.And(_q >= 0, _q < S), z3.And(OFF(_q) >= 0, OFF(_q) <= OFF(_q + 1), OFF(_q + 1) <= NP))))
         eng_.generic_indices = [i0]
-        # the loop over the nodes at the origin does not execute under the precondition (its step path is infeasible): trivial contract
-        eng_.loop_specs[(fq, 1)] = I.LoopSpec(lambda fr, kk: z3.BoolVal(True), modifies=[], name="origin-nodes")
+        # the loop over the nodes at the origin does not execute under the precondition: its contract says that the result array keeps
+        # its pre-loop value (functional havoc = the snapshot; the step obligation holds because the step path is infeasible)
+        snap = {}
+
+        def hav(fr, name, old):
+            if name == "radial_coefficients":
+                snap["rc"] = I.Arr(old.shape, old.fn, old.dtype)
+                return old
+            return None
+
+        def inv(fr, kk):
+            cur = fr.load_name("radial_coefficients")
+            if "rc" not in snap:
+                return z3.BoolVal(True)       # entry: nothing has been written yet
+            if len(cur.shape) != 1:
+                raise T.Unsupported("one-function harness: result of more than one dimension")
+            return T.zr(cur.fn(i0)) == T.zr(snap["rc"].fn(i0))
+        eng_.loop_specs[(fq, 1)] = I.LoopSpec(inv, havoc=hav, modifies=["radial_coefficients"], name="origin-nodes")
         try:
             g = atom_obj(eng_, None)
             out = eng_.call_method(g, "integrate_angular_coordinates", I.Arr((NP,), lambda j: FV(T.zi(j)), "real"))
